@@ -729,7 +729,7 @@ impl Table for SdtT {
         "sdt"
     }
     fn kinds(&self) -> &'static [&'static str] {
-        &["append_u8", "append_u16", "append_u32", "append_u64", "append_slice", "write_u8", "write_u32", "sink_byte"]
+        &["append_u8", "append_u16", "append_u32", "append_u64", "append_slice", "write_u8", "write_u32", "sink_byte", "write_u64 running past the end (refusable)"]
     }
     fn ctors(&self, level: u8) -> Vec<Ctor> {
         if level == 0 {
@@ -764,6 +764,11 @@ impl Table for SdtT {
             }
         }
         v.push(Op::new(7, 0, 1));
+        // a write that starts inside the table and runs past its end: refused, table unchanged (offered once per history)
+        if level > 0 && !h.iter().any(|o| o.k == 8) {
+            v.push(Op::new(8, (len - 3) as u16, 2));
+            v.push(Op::new(8, (len - 7) as u16, 1));
+        }
         v
     }
     fn run(&self, c: &Ctor, ops: &[Op], obs: &mut dyn FnMut(usize, &dyn Aml, &[u32])) {
@@ -779,6 +784,11 @@ impl Table for SdtT {
                 4 => t.append_slice(&f.arr::<8>(0)[..op.shape as usize]),
                 5 => t.write_u8(op.shape as usize, f.u8(0)),
                 6 => t.write_u32(op.shape as usize, f.u32(0)),
+                8 => {
+                    if crate::util::catch(|| t.write_u64(op.shape as usize, f.u64(0))).is_err() {
+                        crate::seq::note_refused(i);
+                    }
+                }
                 _ => acpi_tables::AmlSink::byte(&mut t, f.u8(0)),
             }
             obs(i + 1, &t, &[]);
@@ -810,6 +820,13 @@ impl Table for SdtT {
                 3 => app(&mut w, &f.u64(0).to_le_bytes()),
                 4 => app(&mut w, &f.arr::<8>(0)[..op.shape as usize]),
                 5 => w.0[op.shape as usize] = f.u8(0),
+                8 => {
+                    // in range: a plain write; running past the end: refused, nothing changes
+                    let o = op.shape as usize;
+                    if o + 8 <= w.0.len() {
+                        w.0[o..o + 8].copy_from_slice(&f.u64(0).to_le_bytes());
+                    }
+                }
                 _ => {
                     let o = op.shape as usize;
                     w.0[o..o + 4].copy_from_slice(&f.u32(0).to_le_bytes());
@@ -831,7 +848,7 @@ impl Table for SdtT {
             0 | 5 | 7 => vec![U(8)],
             1 => vec![U(16)],
             2 | 6 => vec![U(32)],
-            3 => vec![U(64)],
+            3 | 8 => vec![U(64)],
             _ => vec![A(8)],
         }
     }
